@@ -370,19 +370,56 @@ theorem pn_log (asg op a b) (iha : PN asg a) (ihb : PN asg b) : PN asg (.log op 
       rfl
 
 
+/-! ### constant-condition `?:`: the live arm already has the common type -/
+
+theorem c11Cast_of_eqv {a b : VT} (h : a.eqv b = true) : VT.c11Cast a b = (a, b) := by
+  unfold VT.c11Cast
+  unfold VT.eqv at h
+  simp only [Bool.and_eq_true] at h
+  simp only [h.1, h.2, Bool.and_self, if_true]
+
+/-- arms of equal type at least `int` wide (the carve-out before it was widened) are inside `liveKeepsTy` -/
+theorem liveKeepsTy_of_eqv (first : Bool) {ca cb : CE}
+    (h : (decide (32 ≤ ca.ty.width) && decide (32 ≤ cb.ty.width) && ca.ty.eqv cb.ty) = true) :
+    liveKeepsTy first ca cb = true := by
+  simp only [Bool.and_eq_true] at h
+  have hself : ∀ t : VT, t.eqv t = true := by intro t; simp [VT.eqv]
+  unfold liveKeepsTy
+  rw [c11Cast_of_eqv h.2]
+  simp only [h.1.1, h.1.2, Bool.and_self, Bool.true_and, hself, ite_self]
+
+/-- `cast_operands` of the repaired lowering returns an operand AS IT IS when `c11_cast` keeps its width and sign -/
+theorem castOperands_fixed_fst (a b : CE) (h : (VT.c11Cast a.ty b.ty).1.eqv a.ty = true) :
+    (castOperands Cfg.fixed a b).1 = a := by
+  rw [castOperands_eq]
+  exact initACast_of_eqv _ _ _ (by rw [adjGroup_fixed]; exact h)
+
+theorem castOperands_fixed_snd (a b : CE) (h : (VT.c11Cast a.ty b.ty).2.eqv b.ty = true) :
+    (castOperands Cfg.fixed a b).2 = b := by
+  rw [castOperands_eq]
+  exact initACast_of_eqv _ _ _ (by rw [adjGroup_fixed]; exact h)
+
+/-- the repaired lowering of a constant-condition `?:` (promote both arms, convert to the common type, take the live
+    one) returns the live arm as it is — what the code does — when `liveKeepsTy` holds -/
+theorem liveArm_fixed (first : Bool) (ca cb : CE) (h : liveKeepsTy first ca cb = true) :
+    (if first = true then (castOperands Cfg.fixed (promotionCast Cfg.fixed ca) (promotionCast Cfg.fixed cb)).1
+     else (castOperands Cfg.fixed (promotionCast Cfg.fixed ca) (promotionCast Cfg.fixed cb)).2) =
+    (if first = true then ca else cb) := by
+  unfold liveKeepsTy at h
+  simp only [Bool.and_eq_true, decide_eq_true_eq] at h
+  rw [promotionCast_of_wide _ _ h.1.1, promotionCast_of_wide _ _ h.1.2]
+  cases first with
+  | true => simp only [if_true] at h ⊢; exact castOperands_fixed_fst _ _ h.2
+  | false => simp only [Bool.false_eq_true, if_false] at h ⊢; exact castOperands_fixed_snd _ _ h.2
+
 theorem ternOfCE_asCode_eq_fixed (c : CExpr) (cc ca cb : CE) (h : ternSafe c cc ca cb = true) :
     ternOfCE Cfg.fixed (normTy c cc) ca cb = ternOfCE Cfg.asCode cc ca cb := by
   unfold ternSafe at h
   unfold ternOfCE
   simp only [cfgsimp, if_true, Bool.false_eq_true, if_false, normTy_kind]
-  have hconst : (decide (32 ≤ ca.ty.width) && decide (32 ≤ cb.ty.width) && ca.ty.eqv cb.ty) = true →
-      castOperands Cfg.fixed (promotionCast Cfg.fixed ca) (promotionCast Cfg.fixed cb) = (ca, cb) := by
-    intro h
-    simp only [Bool.and_eq_true, decide_eq_true_eq] at h
-    rw [promotionCast_of_wide _ _ h.1.1, promotionCast_of_wide _ _ h.1.2, castOperands_of_eqv _ _ _ h.2]
   cases hk : cc.kind with
-  | lit v => simp only [hk] at h; simp only [hconst h]
-  | boolLit r => simp only [hk] at h; simp only [hconst h]
+  | lit v => simp only [hk] at h; simp only [liveArm_fixed _ ca cb h]
+  | boolLit r => simp only [hk] at h; simp only [liveArm_fixed _ ca cb h]
   | plain =>
     simp only [hk, Bool.and_eq_true] at h
     have hw := h.2
